@@ -1,7 +1,7 @@
 (* C17 — Every reply is well-formed, and RESP and JSON outputs agree.
    This file holds only the property theorems, each closed by a lemma of Proofs/. *)
 From T38 Require Import Base.Bytes Base.Utf8 Model.Json Model.Templates
-  Model.JsonMode Proofs.JsonModeProofs Model.WsFrame Model.RespOut Model.JsonScan Proofs.JsonScanProofs Proofs.JsonRespProofs Proofs.JsonProofs Proofs.JsonTmplProofs Proofs.JsonGenProofs Proofs.JsonWsProofs Model.Mvt Proofs.MvtProofs.
+  Model.JsonMode Proofs.JsonModeProofs Model.WsFrame Model.RespOut Model.JsonScan Proofs.JsonScanProofs Proofs.JsonRespProofs Proofs.JsonProofs Proofs.JsonTmplProofs Proofs.JsonGenProofs Proofs.JsonWsProofs Model.Mvt Proofs.MvtProofs Model.ClientList Proofs.ClientListProofs.
 From T38 Require Gen.Templates.
 
 (* jsonString / appendJSONString (fast path and Go's json.Marshal escaping: control bytes, quote,
@@ -187,11 +187,15 @@ Proof. exact dropzero_refuted. Qed.
 Print Assumptions c17_drop_zero_distance_refuted.
 
 (* Which mode a reply is in: netServe's loops (per packet, per message: resolve msg.OutputType from
-   client.outputType / the default, OUTPUT switches it, write it back) produce, for every split
-   of the command stream into packets, the mode of the latest OUTPUT switch at or before each
-   command (else the connection's initial mode). *)
+   client.outputType / the -o default / the framing, OUTPUT switches it, HELLO <digit> on a server
+   started with -o json is answered in RESP for that one reply, write the message's mode back)
+   produce, for every split of the command stream into packets, the mode of the latest OUTPUT switch
+   at or before each command (else the connection's initial mode); a HELLO changes nothing for the
+   commands after it.  serve is the model with the HELLO branch as the source has it: whether the
+   branch restores msg.OutputType before returning is read from handleInputCommand by tmplx
+   (Gen.Templates.hello_restores_output). *)
 Theorem c17_mode_follows_output : forall dflt parsed packets c,
-  serve dflt parsed c packets = spec_modes (initial_mode dflt parsed c) (concat packets).
+  serve dflt parsed c packets = spec_modes dflt parsed (initial_mode dflt parsed c) (concat packets).
 Proof. exact serve_spec_proof. Qed.
 Print Assumptions c17_mode_follows_output.
 
@@ -205,6 +209,44 @@ Theorem c17_mode_hoisted_refuted :
   serve_hoisted None OResp None [[POutput OJson; POther]; [POther]] <> serve None OResp None [[POutput OJson; POther]; [POther]].
 Proof. exact hoisted_refuted. Qed.
 Print Assumptions c17_mode_hoisted_refuted.
+
+(* HELLO 3 on a server started with -o json (what go-redis sends first): the error is in RESP, the
+   next command is answered in JSON again, in the same packet or the next; HELLO abc, or HELLO 3
+   after an OUTPUT json on a server without -o, is an ordinary JSON error *)
+Theorem c17_hello_leaves_mode :
+  serve (Some OJson) OResp None [[PHello true; POther]] = [OResp; OJson] /\
+  serve (Some OJson) OResp None [[PHello true]; [POther]] = [OResp; OJson] /\
+  serve (Some OJson) OResp None [[PHello false; POther]] = [OJson; OJson] /\
+  serve None OResp None [[POutput OJson; PHello true; POther]] = [OJson; OJson; OJson].
+Proof. exact hello_leaves_mode_proof. Qed.
+Print Assumptions c17_hello_leaves_mode.
+
+(* without the restore in the HELLO branch (seeded change C17/11) the temporary RESP setting is written
+   back into client.outputType: every later reply of the connection is RESP on a JSON-mode server *)
+Theorem c17_hello_no_restore_refuted :
+  serve_r false (Some OJson) OResp None [[PHello true]; [POther]] <>
+  spec_modes (Some OJson) OResp (initial_mode (Some OJson) OResp None) (concat [[PHello true]; [POther]]) /\
+  serve_r false (Some OJson) OResp None [[PHello true]; [POther]] = [OResp; OResp].
+Proof. exact hello_no_restore_refuted. Qed.
+Print Assumptions c17_hello_no_restore_refuted.
+
+(* CLIENT LIST: RESP mode returns the text `id=.. addr=.. name=.. age=.. idle=..` per connection, JSON
+   mode re-parses that text (split at newlines and spaces, each piece cut at the FIRST '=').  For
+   every list of connections whose names are names CLIENT SETNAME accepts (any bytes '!'..'~', '='
+   included) and whose other values hold no white space, the members JSON mode recovers are exactly
+   the fields RESP mode printed, connection by connection, in order. *)
+Theorem c17_client_list_fields_agree : forall cs, forallb client_wf cs = true ->
+  json_entries cut_first (list_text cs) = map resp_fields cs.
+Proof. exact client_list_fields_agree. Qed.
+Print Assumptions c17_client_list_fields_agree.
+
+(* cutting at every '=' and keeping pieces of exactly two parts (seeded change C17/12) loses the name a=b *)
+Theorem c17_client_list_split_all_refuted :
+  client_wf client_eq_name = true /\
+  json_entries cut_only (list_text [client_eq_name]) <> map resp_fields [client_eq_name] /\
+  json_entries cut_only (list_text [client_eq_name]) = [[(k_id, [55]); (k_addr, [49; 58; 50]); (k_age, [48]); (k_idle, [48])]].
+Proof. exact client_list_split_all_refuted. Qed.
+Print Assumptions c17_client_list_split_all_refuted.
 
 (* Pub/sub: what a JSON-mode subscriber is sent for any published payload (the payload itself
    when it is valid JSON, else jsonString of it) is always one valid JSON value; deciding by the
